@@ -24,4 +24,6 @@ def run(ctx):
     # every rewrite works on tokens: no source text is copied into the output (wave 10; shared by the stylesheet packs)
     obs += cp.tokens_only_rule(ctx, 'C10')
     obs += cp.state_counters_rule(ctx, 'C10')
+    # every dimension of a block reaches the conversion: a block is processed up to its end (wave 11; shared with C08.ctx)
+    obs += [o for o in cp.ctx_rule(ctx, 'C10') if '/to-the-end' in o['key']]
     return obs
